@@ -13,6 +13,7 @@ import (
 	"os"
 	"runtime"
 	"sort"
+	"strconv"
 	"strings"
 	"sync"
 	"sync/atomic"
@@ -99,6 +100,11 @@ type subEnv struct {
 	pools map[string]pathPool  // one per writer (target)
 	sent  int64                // sentinel counter
 	hung  bool
+	// rendezvous of a held-back writer op (cacheOp.AtWalk) with a subscriber's initial walk; both
+	// sides wait for each other for a bounded time only
+	walk    chan struct{} // walk.begin hook -> writer
+	arrive  chan struct{} // writer -> walk.begin hook
+	pending int32         // held-back ops of the running phase not yet executed
 }
 
 // emit serialises emission: file order is a real-time order.
@@ -474,6 +480,18 @@ func (e *subEnv) writerOp(t string, o cacheOp) {
 		}
 		ev["ups"], ev["dels"], ev["ts"] = ups, dels, o.Ts
 	}
+	if o.AtWalk {
+		select {
+		case e.arrive <- struct{}{}:
+		default:
+		}
+		select {
+		case <-e.walk:
+			time.Sleep(time.Duration(o.Now%8) * 40 * time.Microsecond)
+		case <-time.After(20 * time.Millisecond):
+		}
+		atomic.AddInt32(&e.pending, -1)
+	}
 	e.emit(ev)
 	res := "ok"
 	switch o.Op {
@@ -684,8 +702,52 @@ var subDelaySeed int64
 
 var queueOwner sync.Map // *coalesce.Queue -> *subRun
 
+var slowWalkers sync.Map // goroutine id -> true
+var nSlowWalkers int32
+
+// goid returns the id of the calling goroutine (hooks run on the goroutine of the code under test).
+func goid() int64 {
+	var buf [64]byte
+	n := runtime.Stack(buf[:], false)
+	f := strings.Fields(string(buf[:n]))
+	if len(f) < 2 {
+		return -1
+	}
+	id, _ := strconv.ParseInt(f[1], 10, 64)
+	return id
+}
+
 func subHook(point string, arg interface{}) {
 	switch point {
+	case "walk.begin":
+		if r, ok := arg.(*subRun); ok {
+			if atomic.LoadInt32(&r.env.pending) > 0 {
+				select {
+				case <-r.env.arrive:
+				case <-time.After(20 * time.Millisecond):
+				}
+				// this walk is slowed down (every insert) so that the held-back op lands inside it
+				slowWalkers.Store(goid(), true)
+				atomic.AddInt32(&nSlowWalkers, 1)
+			}
+			select {
+			case r.env.walk <- struct{}{}:
+			default:
+			}
+		}
+	case "walk.end":
+		if atomic.LoadInt32(&nSlowWalkers) > 0 {
+			if _, ok := slowWalkers.LoadAndDelete(goid()); ok {
+				atomic.AddInt32(&nSlowWalkers, -1)
+			}
+		}
+	case "insert.checked", "insert.done":
+		if atomic.LoadInt32(&nSlowWalkers) > 0 {
+			if _, ok := slowWalkers.Load(goid()); ok {
+				time.Sleep(150 * time.Microsecond)
+				return
+			}
+		}
 	case "send.dequeue":
 		a := arg.([2]interface{})
 		if r, ok := a[0].(*subRun); ok {
@@ -732,7 +794,8 @@ func installSubHooks(delays bool) {
 // ---- scenario execution ----
 
 func runSubScenario(w *trace.Writer, sc subScenario) bool {
-	e := &subEnv{w: w, sc: sc, runs: map[string]*subRun{}, fed: map[string][]trace.E{}, pools: map[string]pathPool{}}
+	e := &subEnv{w: w, sc: sc, runs: map[string]*subRun{}, fed: map[string][]trace.E{}, pools: map[string]pathPool{},
+		walk: make(chan struct{}, 1), arrive: make(chan struct{}, 1)}
 	opts := []cache.Option{}
 	if !sc.Ed {
 		opts = append(opts, cache.DisableEventDrivenEmulation())
@@ -789,6 +852,27 @@ func runSubScenario(w *trace.Writer, sc subScenario) bool {
 				}
 			}
 		}
+		tnames := []string{}
+		held := int32(0)
+		for t, ops := range ph.Writers {
+			tnames = append(tnames, t)
+			for _, o := range ops {
+				if o.AtWalk {
+					held++
+				}
+			}
+		}
+		// drain stale signals of the previous phase
+		select {
+		case <-e.walk:
+		default:
+		}
+		select {
+		case <-e.arrive:
+		default:
+		}
+		atomic.StoreInt32(&e.pending, held)
+		sort.Strings(tnames)
 		for _, name := range ph.Start {
 			if r := e.runs[name]; r != nil && !r.started {
 				wg.Add(1)
@@ -799,11 +883,6 @@ func runSubScenario(w *trace.Writer, sc subScenario) bool {
 				}(r)
 			}
 		}
-		tnames := []string{}
-		for t := range ph.Writers {
-			tnames = append(tnames, t)
-		}
-		sort.Strings(tnames)
 		for _, t := range tnames {
 			wg.Add(1)
 			go func(t string, ops []cacheOp) {
@@ -948,7 +1027,7 @@ func runSubScenario(w *trace.Writer, sc subScenario) bool {
 
 func genSubPath(r *rand.Rand, glob bool) pathDesc {
 	names := []string{"a", "b", "c"}
-	depth := 1 + r.Intn(3)
+	depth := []int{1, 1, 1, 2, 2, 3}[r.Intn(6)] // mostly short: a subscription that matches nothing observes nothing
 	p := pathDesc{}
 	for i := 0; i < depth; i++ {
 		e := elemDesc{Name: names[r.Intn(len(names))]}
@@ -963,7 +1042,7 @@ func genSubPath(r *rand.Rand, glob bool) pathDesc {
 		}
 		p.Elems = append(p.Elems, e)
 	}
-	if glob && r.Intn(8) == 0 {
+	if glob && r.Intn(5) == 0 {
 		p.Elems = []elemDesc{{Name: "*"}}
 	}
 	return p
@@ -1073,6 +1152,32 @@ func genSubScenario(r *rand.Rand, sc int, profile string) subScenario {
 			}
 			if n := r.Intn(7); n > 0 {
 				ph.Writers[t] = genSubWriterOps(r, t, n, profile)
+			}
+		}
+		if profile == "remove" && len(ph.Start) > 0 && r.Intn(2) == 0 {
+			// a whole-target removal (or reset) dropped into the initial walk of the subscribers starting now
+			t := s.Targets[r.Intn(len(s.Targets))]
+			o := cacheOp{Op: []string{"Remove", "Remove", "Reset"}[r.Intn(3)], T: t, Now: atomic.AddInt64(&subClock, 3), AtWalk: true}
+			ph.Writers[t] = append([]cacheOp{o}, ph.Writers[t]...)
+		} else if len(ph.Start) > 0 && r.Intn(2) == 0 {
+			// one writer op of the phase is held back until a subscriber is inside its initial walk;
+			// removals are preferred (they are what a walk has to be atomic against)
+			var cands, dels [][2]interface{}
+			for _, t := range s.Targets {
+				for i, o := range ph.Writers[t] {
+					c := [2]interface{}{t, i}
+					cands = append(cands, c)
+					if o.Op == "Remove" || o.Op == "Reset" || len(o.Dels) > 0 {
+						dels = append(dels, c)
+					}
+				}
+			}
+			if len(dels) > 0 && r.Intn(4) > 0 {
+				cands = dels
+			}
+			if len(cands) > 0 {
+				c := cands[r.Intn(len(cands))]
+				ph.Writers[c[0].(string)][c[1].(int)].AtWalk = true
 			}
 		}
 		s.Phases = append(s.Phases, ph)
